@@ -177,6 +177,27 @@ def specMate [BEq α] [LT ρ] [DecidableLT ρ] [OfNat ρ 0] (P : Proto) (pop : P
      s!"count={cCount} family={cGrp} names={cNames} counters={cCtr} mosaic={cRows}")
   | _, _ => (false, "count arrays rejected")
 
+/-! ### Spec of the three matrix utilities (`mat_meiosis`/`dense_meiosis`, `mat_dh`/`dense_dh`,
+`mat_mate`/`dense_cross`) on implementation outputs -/
+
+/-- row `i` of the gamete matrix is a mosaic of the two copies of taxon `sel[i]` -/
+def specGametes [BEq α] [LT ρ] [DecidableLT ρ] [OfNat ρ 0] (pop : Pop α) (sel : List Nat) (xo : List ρ)
+    (rows : List (Hap α)) : Bool :=
+  rows.length == sel.length &&
+  (List.zip sel rows).all (fun sr => match pop[sr.1]? with
+    | some F => mosaicCheck [F.1, F.2] xo sr.2
+    | none => false)
+
+/-- doubled haploids: one such gamete, twice -/
+def specDh [BEq α] [LT ρ] [DecidableLT ρ] [OfNat ρ 0] (pop : Pop α) (sel : List Nat) (xo : List ρ)
+    (prog : Pop α) : Bool :=
+  specGametes pop sel xo (prog.map Prod.fst) && prog.all (fun c => c.1 == c.2)
+
+/-- a cross: copy 0 a gamete of the selected female, copy 1 a gamete of the selected male -/
+def specCross [BEq α] [LT ρ] [DecidableLT ρ] [OfNat ρ 0] (fpop mpop : Pop α) (fsel msel : List Nat) (xo : List ρ)
+    (prog : Pop α) : Bool :=
+  specGametes fpop fsel xo (prog.map Prod.fst) && specGametes mpop msel xo (prog.map Prod.snd)
+
 end spec
 
 end Mating
